@@ -32,7 +32,7 @@ Fixpoint collect (f : jv -> option jv) (xs : list jv) : list jv :=
 Definition lookup1 (k : str) (v : jv) : lres :=
   match v with
   | JObj kvs => match field k kvs with Some x => Found x | None => KeyNotFound end
-  | JArr (JObj _ :: _ as xs) =>
+  | JArr ((JObj _ :: _) as xs) =>
       match collect (field_of k) xs with [] => KeyNotFound | ys => Found (JArr ys) end
   | JNull => OnNull
   | _ => KeyNotFound
